@@ -2,6 +2,9 @@ module verif
 
 go 1.23.0
 
-require github.com/cloudspannerecosystem/memefish v0.0.0
+require (
+	github.com/cloudspannerecosystem/memefish v0.0.0
+	github.com/google/go-cmp v0.6.0
+)
 
 replace github.com/cloudspannerecosystem/memefish => /repo
